@@ -461,11 +461,12 @@ func (gen *generator) getIndex(index ast.Constant) gep.Index {
 			Val:       val,
 			VectorLen: uint64(len(elems)),
 		}
-	case *ast.PtrToIntExpr:
-		return gep.Index{HasVal: false}
 	case *ast.UndefConst:
 		return gep.Index{HasVal: false}
 	case *ast.PoisonConst:
+		return gep.Index{HasVal: false}
+	case ast.ConstantExpr:
+		// should already have been simplified to a form we can handle.
 		return gep.Index{HasVal: false}
 	default:
 		// TODO: add support for more constant expressions.
